@@ -7,7 +7,7 @@ import itertools
 
 from zope.interface import Interface, classImplements, directlyProvides
 from zope.interface import interface as zi
-from zope.interface.adapter import AdapterRegistry
+from zope.interface.adapter import AdapterRegistry, VerifyingAdapterRegistry
 from zope.interface.interface import INTERFACE_METHODS, InterfaceClass
 
 from zmon import util
@@ -17,7 +17,9 @@ CONFORM = ['absent', 'none', 'value', 'value-static', 'value-instfunc', 'value-c
            'raise-KeyError', 'get-AttributeError', 'get-RuntimeError',
            # the body of a __conform__ that is not a bound method raises: must propagate all the same
            'raise-TypeError-static', 'raise-TypeError-instfunc', 'raise-TypeError-callableobj',
-           'raise-AttributeError-static', 'raise-AttributeError-instfunc', 'raise-AttributeError-callableobj']
+           'raise-AttributeError-static', 'raise-AttributeError-instfunc', 'raise-AttributeError-callableobj',
+           # a __conform__ attribute that is None (opting out of an inherited one): counts as having none
+           'attr-None-class', 'attr-None-instance']
 PROVIDED = ['no', 'class', 'direct']
 ALT = ['absent', 'given', 'none']
 CUSTOM = ['none'] + ['%s:%s' % (s, b) for s in ('own', 'inherited', 'inherited2', 'inherited-deep')
@@ -82,7 +84,7 @@ def build_obj(conform, provided, iface, log, state):
     ns = {}
     inst_attrs = {}
     if conform in ('value-static', 'none-static', 'value-instfunc', 'value-callableobj', 'value-partial') or \
-            conform.count('-') == 2:
+            (conform.count('-') == 2 and not conform.startswith('attr-')):
         # a __conform__ that is a perfectly good callable but not a bound method
         def conform_fn(proto):
             log.append('conform')
@@ -112,6 +114,21 @@ def build_obj(conform, provided, iface, log, state):
                 return state['conform_value']
             raise state['conform_exc']
         ns['__conform__'] = __conform__
+    elif conform == 'attr-None-class':
+        # the base class has a working __conform__, the class itself sets it to None
+        def base_conform(self, proto):
+            log.append('conform')
+            return state.get('conform_value')
+        Base_ = type('ObjBase', (object,), {'__conform__': base_conform})
+        cls = type('Obj', (Base_,), {'__conform__': None})
+        if provided == 'class':
+            classImplements(cls, iface)
+        obj = cls()
+        if provided == 'direct':
+            directlyProvides(obj, iface)
+        return obj
+    elif conform == 'attr-None-instance':
+        inst_attrs['__conform__'] = None
     elif conform.startswith('get-'):
         def getter(self):
             log.append('conform-get')
@@ -137,6 +154,8 @@ def reference(conform, provided, hooks, alt, custom, obj, iface, state, direct_a
         elif conform.startswith('get-'):
             log.append('conform-get')
             return log, ('raise', state['conform_exc'])
+        elif conform.startswith('attr-None'):
+            pass                                           # None: treated as absent, nothing is called
         elif conform != 'absent':
             log.append('conform')
             if conform.startswith('raise-'):
@@ -264,8 +283,10 @@ def registry_hook(ctx, rng):
     """With a registry's adapter_hook installed, I(obj) == registry.queryAdapter(obj, I)."""
     saved = list(zi.adapter_hooks)
     try:
-        for _ in range(40):
-            reg = AdapterRegistry()
+        for n_world in range(40):
+            # plain registries, and verifying ones below a base that changes between the questions
+            base = VerifyingAdapterRegistry() if n_world % 2 else None
+            reg = VerifyingAdapterRegistry((base,)) if base is not None else AdapterRegistry()
             zi.adapter_hooks[:] = [reg.adapter_hook]
             R = util.gen_iface_dag(rng, rng.randint(2, 5), prefix='R', maxb=2)
             T = util.gen_iface_dag(rng, rng.randint(1, 3), prefix='T', maxb=1)
@@ -281,8 +302,14 @@ def registry_hook(ctx, rng):
 
                 def fac(o, tag=(r.__name__, t.__name__), ret=ret):
                     return ('adapted', tag, id(o)) if ret else None
-                reg.register([r], t, '', fac)
+                (reg if base is None or rng.random() < 0.5 else base).register([r], t, '', fac)
             for _q in range(12):
+                if base is not None and rng.random() < 0.5:
+                    # something changes above the registry whose hook is installed; then queryAdapter() is asked
+                    # *first* (warm cache), the interface call second - they must agree
+                    r_, t_ = rng.choice(R), rng.choice(T)
+                    base.register([r_], t_, '', (lambda o, tag=('late', r_.__name__, t_.__name__, _q): ('adapted', tag, id(o))))
+                    ctx.count('registry_hook_changes_above')
                 o = rng.choice(classes)()
                 if rng.random() < 0.3:
                     directlyProvides(o, rng.choice(R))
